@@ -145,6 +145,11 @@ def engine_check(prop, tier, seed, run_fn, table, assumptions, driver, checker):
     if not st["ocaml_ok"]:
         broken.append("extraction / OCaml checker build failed: " + st["ocaml_log"][-400:])
     run = run_fn(tier, seed) if st["ocaml_ok"] else {"reports": [], "summaries": [], "wall_s": 0, "cached": False}
+    xres = None
+    if tier == "thorough" and st["coq_ok"] and run.get("xc"):
+        xres = B.xcheck(prop, run["xc"])
+        if not xres["ok"]:
+            broken.append("vm_compute cross-check of the extracted model disagrees with Coq's own evaluation: " + xres["log"][-300:].replace("\n", " "))
     spec, mism = B.reports_for(prop, run, table)
     for d in spec + mism:
         tag_engine(d, driver, checker)
@@ -215,6 +220,7 @@ def engine_check(prop, tier, seed, run_fn, table, assumptions, driver, checker):
         "theorems": a.get("theorems", []),
         "print_assumptions": "Closed under the global context x%d" % a.get("closed", 0) + ("; axioms: " + ",".join(a.get("axioms", [])) if a.get("axioms") else ""),
         "proof_broken": broken,
+        "vm_compute_cross_check": ({"samples": xres["n"], "agree": xres["ok"]} if xres else "thorough tier only"),
         "coqchk": ({"axioms": chk["axioms"] or ["<none>"], "flags": chk["flags"], "accepted": chk["ok"]} if chk else "thorough tier only"),
         "evaluations": tot["histories"],
         "distinct_nontrivial": tot["distinct_nontrivial"],
